@@ -5,6 +5,7 @@ import json
 import os
 import random
 import sys
+import time
 import traceback
 
 
@@ -23,6 +24,8 @@ class Ctx:
         self.samples = []
         self._L = None
         self.single = spec.get('single')      # replay: only this case index
+        self.resume = spec.get('resume')      # {'index': case, 'at': position inside it} after a crash inside a case
+        self._last_stat = time.time()
 
     @property
     def L(self):
@@ -55,8 +58,21 @@ class Ctx:
             yield i
 
     def begin(self, i, info=None):
+        # counters gathered so far survive a crash of the case about to start
+        now = time.time()
+        if now - self._last_stat > 0.5:
+            self._last_stat = now
+            self.flush_stats()
         self._out.write('{"t":"begin","i":%d%s}\n' % (i, (',"info":' + json.dumps(info, default=repr)) if info is not None else ''))
         self._out.flush()
+
+    def flush_stats(self):
+        if self.counters or self.sets or self.maxes or self.samples:
+            self.emit(dict(t='stat', counters=self.counters, sets={k: sorted(v) for k, v in self.sets.items()},
+                           maxes=self.maxes, samples=self.samples))
+            self.counters = {}
+            self.sets = {}
+            self.samples = []
 
     def rng(self, *key):
         h = hashlib.sha256(repr((self.seed,) + key).encode()).digest()
@@ -95,8 +111,7 @@ class Ctx:
         return n
 
     def finish(self):
-        self.emit(dict(t='stat', counters=self.counters, sets={k: sorted(v) for k, v in self.sets.items()},
-                       maxes=self.maxes, samples=self.samples))
+        self.flush_stats()
         self.emit(dict(t='done'))
 
 
